@@ -24,6 +24,10 @@ type UFun struct {
 type Program struct {
 	repo         string
 	fset         *token.FileSet
+	pinnedLoops  map[string][]pinnedLoop // per function: ordinal and source text of the loops that carried invariants when pinned
+	fileLines    map[string][]string
+	pinnedFuncs  map[string]bool // repository functions known when the contracts were pinned (nil: not recorded)
+	pinnedFields map[string]bool // "pkgpath.Struct.field" known when the contracts were pinned (nil: not recorded)
 	pkgs         []*packages.Package
 	allPkgs      []*packages.Package // repo packages (transitively)
 	allTypesPkgs []*types.Package
@@ -308,4 +312,194 @@ func fnPkg(f *ssa.Function) *types.Package {
 		}
 	}
 	return nil
+}
+
+// repoFields lists "pkgpath.Struct.field" for every named struct type of the loaded repository packages.
+func (p *Program) repoFields() []string {
+	var out []string
+	for _, tp := range p.allTypesPkgs {
+		if !p.inRepoPath(tp.Path()) {
+			continue
+		}
+		for _, n := range tp.Scope().Names() {
+			tn, ok := tp.Scope().Lookup(n).(*types.TypeName)
+			if !ok {
+				continue
+			}
+			st, ok := tn.Type().Underlying().(*types.Struct)
+			if !ok {
+				continue
+			}
+			for i := 0; i < st.NumFields(); i++ {
+				out = append(out, tp.Path()+"."+n+"."+st.Field(i).Name())
+			}
+		}
+	}
+	return out
+}
+
+// newFieldHeaps: heap components of struct fields that did not exist when the contracts were pinned. No contract can
+// speak about such a field, so a function with a frame clause is allowed to write it (and callers forget it).
+func (vc *VC) newFieldHeaps() []string {
+	p := vc.prog
+	if p.pinnedFields == nil {
+		return nil
+	}
+	if vc.newHeaps != nil {
+		return vc.newHeaps
+	}
+	vc.newHeaps = []string{}
+	knownPkg := map[string]bool{}
+	for f := range p.pinnedFields {
+		if i := strings.LastIndex(f, "."); i > 0 {
+			if j := strings.LastIndex(f[:i], "."); j > 0 {
+				knownPkg[f[:j]] = true
+			}
+		}
+	}
+	for _, tp := range p.allTypesPkgs {
+		if !p.inRepoPath(tp.Path()) || !knownPkg[tp.Path()] {
+			continue // a package the pins know nothing about: left to the frame clauses as before
+		}
+		for _, n := range tp.Scope().Names() {
+			tn, ok := tp.Scope().Lookup(n).(*types.TypeName)
+			if !ok {
+				continue
+			}
+			st, ok := tn.Type().Underlying().(*types.Struct)
+			if !ok {
+				continue
+			}
+			for i := 0; i < st.NumFields(); i++ {
+				if !p.pinnedFields[tp.Path()+"."+n+"."+st.Field(i).Name()] {
+					if _, generic := tn.Type().(*types.Named); generic && tn.Type().(*types.Named).TypeParams().Len() > 0 {
+						continue // instantiations have their own sorts; left to the frame clauses as before
+					}
+					vc.newHeaps = append(vc.newHeaps, "H_"+vc.sorts.SortOf(tn.Type())+"_"+st.Field(i).Name())
+				}
+			}
+		}
+	}
+	return vc.newHeaps
+}
+
+type pinnedLoop struct {
+	ord  int
+	text string
+}
+
+// loopText: the source line of the statement that opens the loop (trimmed), "" if unknown.
+func (p *Program) loopText(h *ssa.BasicBlock, body map[*ssa.BasicBlock]bool) string {
+	best := token.NoPos
+	scan := func(b *ssa.BasicBlock) {
+		for _, ins := range b.Instrs {
+			if ps := ins.Pos(); ps.IsValid() && (best == token.NoPos || ps < best) {
+				best = ps
+			}
+		}
+	}
+	scan(h)
+	if best == token.NoPos {
+		for b := range body {
+			scan(b)
+		}
+	}
+	if best == token.NoPos {
+		return ""
+	}
+	pos := p.fset.Position(best)
+	if p.fileLines == nil {
+		p.fileLines = map[string][]string{}
+	}
+	lines, ok := p.fileLines[pos.Filename]
+	if !ok {
+		if b, err := os.ReadFile(pos.Filename); err == nil {
+			lines = strings.Split(string(b), "\n")
+		}
+		p.fileLines[pos.Filename] = lines
+	}
+	if pos.Line-1 < 0 || pos.Line-1 >= len(lines) {
+		return ""
+	}
+	return strings.TrimSpace(lines[pos.Line-1])
+}
+
+// remapLoops renumbers the loops of fn so that a loop keeps the ordinal it had when the contracts were pinned, as long as
+// the line that opens it is still recognisable: removing, adding or extracting another loop of the function then does
+// not detach the invariants from their loops. Loops that are not recognised get ordinals above 100. If the pinned loops
+// cannot be matched one to one in order, nothing is renumbered.
+func (p *Program) remapLoops(fn *ssa.Function, loops map[*ssa.BasicBlock]int, bodies map[*ssa.BasicBlock]map[*ssa.BasicBlock]bool) {
+	pinned := p.pinnedLoops[p.funcName(fn)]
+	if len(pinned) == 0 {
+		return
+	}
+	type al struct {
+		h    *ssa.BasicBlock
+		ord  int
+		text string
+	}
+	var actual []al
+	for h, o := range loops {
+		actual = append(actual, al{h, o, p.loopText(h, bodies[h])})
+	}
+	sort.Slice(actual, func(i, j int) bool { return actual[i].ord < actual[j].ord })
+	if os.Getenv("GOVC_DEBUG_LOOPS") != "" {
+		for _, a := range actual {
+			fmt.Fprintf(os.Stderr, "loop %s #%d: %q\n", p.funcName(fn), a.ord, a.text)
+		}
+	}
+	byTextP := map[string][]int{}
+	for _, pl := range pinned {
+		byTextP[pl.text] = append(byTextP[pl.text], pl.ord)
+	}
+	newOrd := map[*ssa.BasicBlock]int{}
+	used := map[int]bool{}
+	for t, ords := range byTextP {
+		sort.Ints(ords)
+		var hs []al
+		for _, a := range actual {
+			if a.text == t && t != "" {
+				hs = append(hs, a)
+			}
+		}
+		if len(hs) < len(ords) {
+			return // a pinned loop is not recognisable any more: keep the plain numbering
+		}
+		// the last len(ords) occurrences when there are more now than then would be a guess: require equality
+		if len(hs) != len(ords) {
+			// more loops with that text than pinned: match only if the pinned ones were all of them at the time; they
+			// were not (otherwise the counts would agree), so give up
+			return
+		}
+		for i, o := range ords {
+			newOrd[hs[i].h] = o
+			used[o] = true
+		}
+	}
+	// order must be preserved among the matched loops
+	last := 0
+	for _, a := range actual {
+		if o, ok := newOrd[a.h]; ok {
+			if o < last {
+				return
+			}
+			last = o
+		}
+	}
+	identity := true
+	for _, a := range actual {
+		if o, ok := newOrd[a.h]; ok && o != a.ord {
+			identity = false
+		}
+	}
+	if identity {
+		return
+	}
+	for _, a := range actual {
+		if o, ok := newOrd[a.h]; ok {
+			loops[a.h] = o
+		} else {
+			loops[a.h] = 100 + a.ord
+		}
+	}
 }
